@@ -167,8 +167,9 @@ ELook(dir, pos, x, y) ==
 \* one assertion raises NotEnoughArgumentsException
 RECURSIVE ELookFold(_, _, _, _, _)
 ELookFold(dir, pos, acc, ys, i) ==
-  IF i > Len(ys) \/ ~acc.ok \/ acc.ex # {} THEN acc
-  ELSE ELookFold(dir, pos, ELook(dir, pos, acc.v, ys[i]), ys, i + 1)
+  IF i > Len(ys) \/ ~acc.ok THEN acc
+  ELSE LET nx == ELook(dir, pos, acc.v, ys[i]) IN
+       ELookFold(dir, pos, [nx EXCEPT !.ex = @ \cup acc.ex], ys, i + 1)
 ELookN(dir, pos, x, ys) ==
   IF Len(ys) = 0 THEN RaiseO(ArgsEx)
   ELSE IF IsBad(x) THEN RaiseO(TypeEx)
